@@ -343,7 +343,7 @@ func logOnce(t *rapid.T, format string, e *logger.Event) (w *countingWriter, pan
 }
 
 func TestC20LogLine(t *testing.T) {
-	hx.Check(t, hx.Scale(20000, 1000000), func(t *rapid.T) {
+	hx.Check(t, hx.Scale(80000, 1000000), func(t *rapid.T) {
 		var items []item
 		switch rapid.IntRange(0, 9).Draw(t, "fmtkind") {
 		case 0:
